@@ -270,3 +270,22 @@ SPECS['C07'] = dict(
     quick=dict(workers=16, cases=1500, size=100, timeout=1500),
     thorough=dict(workers=16, cases=6000, size=100, timeout=7200),
 )
+
+_DAEMON = dict(shims=['sut_strm', 'sut_echsd'], shim_flags={'sut_echsd': ['-I/verif/sut/fakeev']}, repo_srcs=['logger'])
+
+SPECS['C04'] = dict(
+    kind='native', drivers=['p_c04.cpp'], with_lib=True, **_DAEMON,
+    level='exploration',
+    technique='model-based testing of the unmodified echsd.c under a deterministic virtual-time libev stand-in: generated add/replace/cancel/advance/child-exit histories (rapidcheck)',
+    level_text=('echsd.c is compiled unmodified into a harness whose <ev.h> is a virtual-time stand-in reproducing libev\'s periodic semantics (reschedule before callback, fire iff at < now); '
+                'posix_spawn is interposed. Generated histories of adds, replaces, cancels, clock advances with wake-ups 1 ms .. 130 s late and child exits are replayed and every '
+                'spawn is matched against the occurrences an independent parse of the same event yields: never early, never for the past, late wake-ups collapse to one run, no due '
+                'occurrence left unrun, tasks vanish after their last run and last child.'),
+    level_note='verdicts are about echsd.c\'s logic under libev\'s documented callback order, not about libev, real time, signals or the kernel',
+    rule=('history = up to 60 (thorough 300) ops over 5 task UIDs and 2 users: add/replace with SECONDLY..DAILY rules, RDATE lists incl. duplicates and past instants, DTSTART long before now, '
+          'events entirely in the past, cancel, ADV(dt, lateness in {1 ms, 0.4 s, 1 s, 7.5 s, 130 s}), EXITALL, DUMP. non-trivial = a late wake-up spanning >=2 occurrences, or a replace/cancel '
+          'between arm and fire, or a child exit before a late wake-up; distinct = script text'),
+    assumptions=['ordering between different tasks due in the same wake-up is not asserted', 'real sockets, real fork and signals are out of scope of this harness'],
+    quick=dict(workers=16, cases=200, size=100, timeout=1500, opts={'maxops': 60}),
+    thorough=dict(workers=16, cases=10000, size=100, timeout=7200, opts={'maxops': 300}),
+)
